@@ -4,8 +4,16 @@ use crate::util::Ctx;
 
 pub mod c02;
 pub mod c03;
+pub mod c04;
 pub mod c05;
+#[cfg(feature = "builder")]
+pub mod c06;
+#[cfg(feature = "builder")]
+pub mod c07;
 pub mod c10;
+pub mod c11;
+#[cfg(feature = "builder")]
+pub mod c12;
 pub mod c13;
 pub mod c14;
 pub mod c15;
@@ -31,6 +39,14 @@ pub fn make(name: &str) -> Option<Box<dyn Driver>> {
         "C14" => Box::new(c14::C14),
         "C10" => Box::new(c10::C10),
         "C05" => Box::new(c05::C05),
+        "C04" => Box::new(c04::C04),
+        "C11" => Box::new(c11::C11),
+        #[cfg(feature = "builder")]
+        "C06" => Box::new(c06::C06),
+        #[cfg(feature = "builder")]
+        "C07" => Box::new(c07::C07),
+        #[cfg(feature = "builder")]
+        "C12" => Box::new(c12::C12),
         #[cfg(feature = "builder")]
         "C16" => Box::new(c16::C16),
         "C17" => Box::new(c17::C17),
